@@ -202,7 +202,7 @@ def _pram_curve(ctx, case):
     ctx.claim(_close_log(_scalar(curve.calc_P_RAM(1e3)), Z), "pram.knee_1e3", "P(1e3)")
     ctx.claim(_close_log(_scalar(curve.calc_N(Z)), 1e3), "pram.knee_1e3", "N(Z)")
     ctx.claim(_close_log(_scalar(curve.calc_P_RAM(life_limit)), D), "pram.endurance", "P at the knee")
-    return None
+    return {"N": N, "Pn": Pn, "life_limit": _scalar(life_limit)}
 
 
 def _praj_curve(ctx, case):
@@ -231,7 +231,7 @@ def _praj_curve(ctx, case):
     else:
         ctx.claim(_close_log(Pn, D, 1e-12), "praj.endurance", Pn)
     ctx.claim(_close_log(_scalar(curve.calc_P_RAJ(curve.fatigue_life_limit)), D), "praj.endurance", "P at the knee")
-    return None
+    return {"N": N, "Pn": Pn}
 
 
 def _p_ram(ctx, case):
@@ -404,4 +404,4 @@ def _gamma(ctx, case):
         ctx.claim(ok, "gamma_L.lognormal", (g2, a))
     g3 = seq.fkm_safety_blanket.gamma_L(pd.Series({"P_L": pl}, dtype=object))
     ctx.claim(g3 == (1.1 if pl == 2.5 else 1.0), "gamma_L.blanket", g3)
-    return None
+    return {"normal": g, "lognormal": g2, "blanket": g3}
